@@ -147,7 +147,7 @@ def tsan(drv, seed, scale=0.03):
     return extra, viol, inc
 
 
-def cachegrind_scaling(drv, n_small=4000, factor=4):
+def cachegrind_scaling(drv, n_small=4000, factor=4, step=1):
     """Instruction counts of the plain release build on p(n) and p(factor*n): deterministic and
     independent of machine load. Super-linear growth is a violation."""
     t0 = time.time()
@@ -191,7 +191,7 @@ def cachegrind_scaling(drv, n_small=4000, factor=4):
         return i, name, out
 
     with ThreadPoolExecutor(max_workers=16) as ex:
-        res = list(ex.map(fam, range(nfam)))
+        res = list(ex.map(fam, range(0, nfam, step)))
     worst = 0.0
     table = []
     for i, name, out in res:
